@@ -3,7 +3,7 @@
    point on integer-encoded arguments, [spec tag args] evaluates the
    independent specification (wildcard -9 where the spec has no opinion).
    Both are extracted to OCaml and also evaluated by vm_compute in cases_*.v. *)
-From GJ Require Import Base Kernel KernelSpec Series SeriesSpec Ring RingSpec Index IndexExec PairSpec.
+From GJ Require Import Base Kernel KernelSpec Series SeriesSpec Ring RingSpec Index IndexExec PairSpec Pairs Obj ObjSpec.
 
 Definition WILD : Z := -9.
 Definition BAD : list Z := [-1].
@@ -53,14 +53,6 @@ Fixpoint take_rings (n : nat) (l : list Z) : list (list pt) * list Z :=
       let '(rs, rest') := take_rings k rest in (ps :: rs, rest')
   | _, _ => ([], l)
   end.
-
-Definition mk_ring (ps : list pt) : rng := RS {| closed := true; pts := ps |}.
-Definition mk_poly (rs : list (list pt)) : poly :=
-  match rs with
-  | [] => {| exterior := mk_ring []; holes := [] |}
-  | e :: hs => {| exterior := mk_ring e; holes := map mk_ring hs |}
-  end.
-Definition mk_line (ps : list pt) : series := {| closed := false; pts := ps |}.
 
 (* tag 20: polygon point membership; args = s kind minpts nrings rings... x y.
    The implementation reports 17 answers (geometry level, object level with
@@ -220,59 +212,6 @@ Definition take_shape (l : list Z) : option (shape * list Z) :=
   | _ => None
   end.
 
-Inductive gshape := GPoint (p : pt) | GRect (r : rect) | GLine (l : rng) | GPoly (p : poly).
-
-Definition g_of_shape (s : shape) : gshape :=
-  match s with
-  | SPoint p => GPoint p
-  | SRect r => GRect r
-  | SLine ps => GLine (RS (mk_line ps))
-  | SPoly e hs => GPoly (mk_poly (e :: hs))
-  end.
-
-Definition ob (b : bool) : option bool := Some b.
-
-(* the Geometry interface: receiver a, argument b (geometry/{point,rect,line,poly}.go) *)
-Definition g_intersects (a b : gshape) : bool :=
-  match a, b with
-  | GPoint p, GPoint o => pt_eqb p o
-  | GPoint p, GRect r => point_intersects_rect p r
-  | GPoint p, GLine l => point_intersects_line p l
-  | GPoint p, GPoly o => point_intersects_poly p o
-  | GRect r, GPoint p => rect_contains_point r p
-  | GRect r, GRect o => rect_intersects_rect r o
-  | GRect r, GLine l => rect_intersects_line r l
-  | GRect r, GPoly o => rect_intersects_poly r o
-  | GLine l, GPoint p => line_contains_point_r l p
-  | GLine l, GRect r => line_intersects_rect l r
-  | GLine l, GLine o => line_intersects_line l o
-  | GLine l, GPoly o => line_intersects_poly l o
-  | GPoly p, GPoint o => poly_contains_point p o
-  | GPoly p, GRect r => poly_intersects_rect p r
-  | GPoly p, GLine l => poly_intersects_line p l
-  | GPoly p, GPoly o => poly_intersects_poly p o
-  end.
-
-Definition g_contains (a b : gshape) : option bool :=
-  match a, b with
-  | GPoint p, GPoint o => ob (pt_eqb p o)
-  | GPoint p, GRect r => ob (point_contains_rect p r)
-  | GPoint p, GLine l => ob (point_contains_line p l)
-  | GPoint p, GPoly o => ob (point_contains_poly p o)
-  | GRect r, GPoint p => ob (rect_contains_point r p)
-  | GRect r, GRect o => ob (rect_contains_rect r o)
-  | GRect r, GLine l => ob (rect_contains_line r l)
-  | GRect r, GPoly o => ob (rect_contains_poly r o)
-  | GLine l, GPoint p => ob (line_contains_point_r l p)
-  | GLine l, GRect r => line_contains_rect l r
-  | GLine l, GLine o => line_contains_line l o
-  | GLine l, GPoly o => line_contains_poly l o
-  | GPoly p, GPoint o => ob (poly_contains_point p o)
-  | GPoly p, GRect r => ob (poly_contains_rect p r)
-  | GPoly p, GLine l => ob (poly_contains_line p l)
-  | GPoly p, GPoly o => ob (poly_contains_poly p o)
-  end.
-
 Definition ob2z (o : option bool) : Z := match o with Some b => b2z b | None => -2 end.
 
 Definition run_pair (l : list Z) : list Z :=
@@ -386,6 +325,190 @@ Definition spec_sym (l : list Z) : list Z :=
   | _ => BAD
   end.
 
+
+(* ---- object layer (C09, C10, C11) ----
+   object encoding: 0 x y Point | 1 x y SimplePoint | 2 a b c d Rect | 3 n coords LineString
+                    | 4 nrings rings Polygon | 5 obj Feature | 6 kind n obj* collection *)
+Fixpoint take_obj (fuel : nat) (l : list Z) : option (obj * list Z) :=
+  match fuel with
+  | O => None
+  | S f =>
+      match l with
+      | 0 :: x :: y :: r => Some (OPoint (x, y), r)
+      | 1 :: x :: y :: r => Some (OSimple (x, y), r)
+      | 2 :: a :: b :: c :: d :: r => Some (ORect ((a, b), (c, d)), r)
+      | 3 :: n :: r => let '(ps, rest) := take_pts (Z.to_nat n) r in Some (OLine ps, rest)
+      | 4 :: nr :: r => let '(rs, rest) := take_rings (Z.to_nat nr) r in Some (OPoly rs, rest)
+      | 5 :: r => match take_obj f r with Some (b, rest) => Some (OFeature b, rest) | None => None end
+      | 6 :: k :: n :: r =>
+          let fix kids (m : nat) (l : list Z) : option (list obj * list Z) :=
+            match m with
+            | O => Some ([], l)
+            | S m' =>
+                match take_obj f l with
+                | Some (c, rest) =>
+                    match kids m' rest with Some (cs, rest') => Some (c :: cs, rest') | None => None end
+                | None => None
+                end
+            end in
+          match kids (Z.to_nat n) r with Some (cs, rest) => Some (OColl k cs, rest) | None => None end
+      | _ => None
+      end
+  end.
+
+Definition impl_b (x y : bool) : bool := negb x || y.
+
+Definition equivalent_repr (o : obj) : option obj :=
+  match o with
+  | OPoint p => Some (OSimple p)
+  | OSimple p => Some (OPoint p)
+  | ORect r => Some (OPoly [rect_points r])
+  | _ => None
+  end.
+
+(* tag 60: args = s flags objA objB *)
+Definition six (a b : obj) : list bool :=
+  [o_contains a b; o_within a b; o_intersects a b; o_contains b a; o_within b a; o_intersects b a].
+
+Fixpoint blist_eqb (a b : list bool) : bool :=
+  match a, b with
+  | [], [] => true
+  | x :: a', y :: b' => Bool.eqb x y && blist_eqb a' b'
+  | _, _ => false
+  end.
+
+Definition run_obj_pair (l : list Z) : list Z :=
+  match l with
+  | _ :: _ :: r =>
+      match take_obj (length r) r with
+      | Some (a, r1) =>
+          match take_obj (length r1) r1 with
+          | Some (b, []) =>
+              let o0 := o_contains a b in let o1 := o_within a b in let o2 := o_intersects a b in
+              let o3 := o_contains b a in let o4 := o_within b a in let o5 := o_intersects b a in
+              map b2z
+                [o0; o1; o2; o3; o4; o5; fuel_ok a b;
+                 Bool.eqb o1 o3 && Bool.eqb o4 o0;
+                 Bool.eqb o2 o5;
+                 impl_b (o0 && negb (o_empty b)) o2 && impl_b (o3 && negb (o_empty a)) o5;
+                 impl_b (o0 && negb (o_empty b)) (rect_contains_rect (o_rect a) (o_rect b)) &&
+                 impl_b (o3 && negb (o_empty a)) (rect_contains_rect (o_rect b) (o_rect a));
+                 impl_b o2 (rect_intersects_rect (o_rect a) (o_rect b)) &&
+                 impl_b o5 (rect_intersects_rect (o_rect b) (o_rect a));
+                 o_empty a || (o_contains a a && o_intersects a a);
+                 blist_eqb (six (OFeature a) b) (six a b);
+                 match equivalent_repr a with Some e => blist_eqb (six e b) (six a b) | None => true end]
+          | _ => BAD
+          end
+      | None => BAD
+      end
+  | _ => BAD
+  end.
+
+Definition spec_obj_pair (l : list Z) : list Z :=
+  match l with
+  | _ :: flags :: r =>
+      match take_obj (length r) r with
+      | Some (a, r1) =>
+          match take_obj (length r1) r1 with
+          | Some (b, []) =>
+              (if Z.odd (flags / 16) then
+                 let c := b2z (spec_contains a b) in let d := b2z (spec_contains b a) in
+                 let i := b2z (spec_intersects a b) in
+                 [c; d; i; d; c; i]
+               else repeat WILD 6)
+              ++ [1; 1; 1; 1; 1; 1; 1; 1; 1]
+          | _ => BAD
+          end
+      | None => BAD
+      end
+  | _ => BAD
+  end.
+
+(* tag 61: args = s flags obj -> empty valid rect(4) center2(2) npoints *)
+Definition lim180 (s : Z) : Z := 180 * 2 ^ s.
+Definition lim90 (s : Z) : Z := 90 * 2 ^ s.
+
+Definition run_obj_attrs (l : list Z) : list Z :=
+  match l with
+  | s :: _ :: r =>
+      match take_obj (length r) r with
+      | Some (o, []) =>
+          [b2z (o_empty o); b2z (o_valid (lim180 s) (lim90 s) o)] ++ enc_rect (o_rect o)
+          ++ [px (o_center2 o); py (o_center2 o); o_npoints o]
+      | _ => BAD
+      end
+  | _ => BAD
+  end.
+
+Definition spec_obj_attrs (l : list Z) : list Z :=
+  match l with
+  | s :: _ :: r =>
+      match take_obj (length r) r with
+      | Some (o, []) =>
+          if spec_empty o then
+            (* an object without any occupied position has no box to speak of *)
+            [1; b2z (spec_valid (lim180 s) (lim90 s) o); WILD; WILD; WILD; WILD; WILD; WILD; spec_npoints o]
+          else
+            [0; b2z (spec_valid (lim180 s) (lim90 s) o)] ++ enc_rect (spec_rect o)
+            ++ [px (spec_center2 o); py (spec_center2 o); spec_npoints o]
+      | _ => BAD
+      end
+  | _ => BAD
+  end.
+
+(* tag 62: args = s cfg coll probe qminx qminy qmaxx qmaxy stopk
+   output: answers(5) laws(7) nreported [sorted reported when stopk < 0] same-with-index *)
+Definition run_coll (l : list Z) : list Z :=
+  match l with
+  | _ :: _ :: r =>
+      match take_obj (length r) r with
+      | Some (OColl k cs, r1) =>
+          match take_obj (length r1) r1 with
+          | Some (x, [a; b; c; d; stopk]) =>
+              let C := OColl k cs in
+              let rep := map Z.of_nat (o_search cs ((a, b), (c, d))) in
+              [b2z (o_intersects C x); b2z (o_contains C x); b2z (o_within C x);
+               b2z (o_intersects x C); b2z (o_contains x C)]
+              ++ [1; 1; 1; 1; 1; 1; 1]
+              ++ (if stopk <? 0 then Z.of_nat (length rep) :: rep
+                  else [Z.of_nat (Nat.min (Z.to_nat stopk) (length rep))])
+              ++ [1]
+          | _ => BAD
+          end
+      | _ => BAD
+      end
+  | _ => BAD
+  end.
+
+Definition spec_coll (l : list Z) : list Z :=
+  match l with
+  | _ :: flags :: r =>
+      match take_obj (length r) r with
+      | Some (OColl k cs, r1) =>
+          match take_obj (length r1) r1 with
+          | Some (x, [a; b; c; d; stopk]) =>
+              let C := OColl k cs in
+              let q := ((a, b), (c, d)) in
+              (* children with an occupied position whose tight box meets the query *)
+              let want := map (fun ci => Z.of_nat (snd ci))
+                              (filter (fun ci => negb (spec_empty (fst ci)) && rect_intersects_rect (spec_rect (fst ci)) q)
+                                      (combine cs (seq 0 (length cs)))) in
+              (if Z.odd (flags / 16) then
+                 [b2z (spec_intersects C x); b2z (spec_contains C x); b2z (spec_contains x C);
+                  b2z (spec_intersects x C); b2z (spec_contains x C)]
+               else repeat WILD 5)
+              ++ [1; 1; 1; 1; 1; 1; 1]
+              ++ (if stopk <? 0 then Z.of_nat (length want) :: want
+                  else [Z.of_nat (Nat.min (Z.to_nat stopk) (length want))])
+              ++ [1]
+          | _ => BAD
+          end
+      | _ => BAD
+      end
+  | _ => BAD
+  end.
+
 Definition run (tag : Z) (args : list Z) : list Z :=
   match tag, args with
   | 1, [_; ax; ay; bx; by_; x; y] =>
@@ -411,6 +534,9 @@ Definition run (tag : Z) (args : list Z) : list Z :=
   | 50, l => run_pair l
   | 53, l => run_pair l
   | 52, l => run_sym l
+  | 60, l => run_obj_pair l
+  | 61, l => run_obj_attrs l
+  | 62, l => run_coll l
   | _, _ => BAD
   end.
 
@@ -440,6 +566,9 @@ Definition spec (tag : Z) (args : list Z) : list Z :=
   | 50, l => spec_pair 0 l
   | 53, l => spec_pair 1 l
   | 52, l => spec_sym l
+  | 60, l => spec_obj_pair l
+  | 61, l => spec_obj_attrs l
+  | 62, l => spec_coll l
   | _, _ => BAD
   end.
 
@@ -465,3 +594,8 @@ Definition case := (Z * list Z * list Z)%type.     (* tag, args, implementation 
 Definition mismatches (cs : list case) : list case :=
   filter (fun c => let '(t, a, o) := c in
                    negb (zlist_eqb (run t a) o && zlist_match o (spec t a))) cs.
+
+(* model only: used where the implementation is known to disagree with the
+   specification on some cases (KNOWN_FINDINGS.txt) *)
+Definition model_mismatches (cs : list case) : list case :=
+  filter (fun c => let '(t, a, o) := c in negb (zlist_eqb (run t a) o)) cs.
